@@ -717,6 +717,20 @@ def fam_surrogates(ctx):
                                a, (a[::-1] * sc + sh).astype(
                                    a.dtype if a.dtype.kind == "f"
                                    else float), n_bins=nb).shape)
+            # surrogates of another shape than the original data (twin
+            # surrogates of an embedded series are shorter; a caller may also
+            # pass fewer / more series)
+            if kind == "f64" and N >= 1 and T >= 3:
+                for dn, dt in ((0, -2), (0, 3), (-1, 0), (1, 0), (0, -T)):
+                    b = r.normal(size=(max(N + dn, 0), max(T + dt, 0)))
+                    yield (f"Surrogates.test_pearson_correlation|surrogate-"
+                           f"shape{dn:+},{dt:+},{tag}",
+                           lambda a=a, b=b: S.test_pearson_correlation(
+                               a, b).shape)
+                    yield (f"Surrogates.test_mutual_information|surrogate-"
+                           f"shape{dn:+},{dt:+},{tag}",
+                           lambda a=a, b=b: S.test_mutual_information(
+                               a, b, n_bins=4).shape)
             if kind in ("f64", "f32", "nan"):
                 for m in ("white_noise_surrogates",
                           "correlated_noise_surrogates", "AAFT_surrogates"):
@@ -733,6 +747,19 @@ def fam_surrogates(ctx):
                            lambda a=a, dim=dim, delay=delay, thr=thr, md=md:
                            S(a, silence_level=3).twin_surrogates(
                                dim, delay, thr, md).shape)
+    # the library's own shorter surrogates handed to its own test functions
+    for N, T in ((3, 300), (2, 1500)):
+        x = r.normal(size=(N, T))
+        for dim, delay in ((2, 1), (3, 2)):
+            def t(x=x, dim=dim, delay=delay):
+                so = S(x.copy(), silence_level=3)
+                tw = so.twin_surrogates(dim, delay, 0.8)
+                a = S.test_pearson_correlation(so.original_data, tw)
+                b = S.test_mutual_information(so.original_data, tw, n_bins=8)
+                return np.shape(a), np.shape(b)
+            yield (f"Surrogates.test_*|twin-surrogates-of-embedded-series,"
+                   f"N={N},T={T},dim={dim},tau={delay}", t)
+    for N, T in ((0, 0),):
         for T2 in (0, 1, 4):
             for dim in (1, 2):
                 emb = r.normal(size=(T2, dim))
